@@ -163,6 +163,11 @@ def random_deriv(rng, fgg, nt, depth, budget):
         if not ok:
             continue
         asst = {v: rng.randrange(fgg.domains[v.label.name].size()) for v in rule.rhs.nodes()}
+        if len(children) >= 2 and rng.random() < 0.5:
+            # the children mapping is keyed by edge: its insertion order is not the order of the edges in the rule
+            items = list(children.items())
+            rng.shuffle(items)
+            children = dict(items)
         return FGGDerivation(fgg, rule, asst, children)
     return None
 
@@ -249,8 +254,8 @@ def parse_flatten(rep):
 
 
 def run_derivations(ctx):
-    n = 80 if ctx.quick else 1000
-    m = 5 if ctx.quick else 20
+    n = 200 if ctx.quick else 1500
+    m = 4 if ctx.quick else 20
     reqs, meta = [], []
     done = 0
     attempts = 0
@@ -279,7 +284,11 @@ def run_derivations(ctx):
         reqs.append(f'C15.flatten {denc}')
         meta.append((case, named[0]))
         # derive(): same graph as the depth-first linearisation up to fresh ids; assignment; weight
-        graph, asst = d.derive()
+        try:
+            graph, asst = d.derive()
+        except Exception as e:  # noqa
+            ctx.fail(f'derive() raised {type(e).__name__}: {str(e)[:100]}', case, repr(e), None, tags=['derive-raises', type(e).__name__])
+            continue
         g2, name2, ename2 = linearise(d, None)
         c1, c3 = Coder(), Coder()
         c1.nl = c3.nl = dict(c.nl); c1.el = c3.el = dict(c.el); c1.expl = c3.expl = dict(c.expl)
